@@ -521,6 +521,26 @@ def _interpolation(chk, repo):
             elif gg.get("%s <= %s" % (tvar, S)) is True:
                 chk.ob("INTERP-1", "before the start of the fade the start colour itself is returned", first == "color_settings.start_color", f.where(r.ast),
                        construct=f.ident, text="before start")
+    # the colour *below* an entry: the fast path applies to the entry itself on top (same key and same priority); otherwise the first entry
+    # (the stack is sorted, highest first) that does not outrank (priority <= and key <=) starts the sub-stack.  Orderings only.
+    gb = repo.func(LT, "Light.get_color_below")
+    chk.analysed(gb)
+    from sa.cfg import canon_fact as _cf
+
+    def _conj(t):
+        parts = t.values if isinstance(t, ast.BoolOp) and isinstance(t.op, ast.And) else [t]
+        return {_cf(src(x), True) for x in parts}
+    ifs = [x for x in ast.walk(gb.node) if isinstance(x, ast.If)]
+    fast = [x for x in ifs if "self.stack[0]" in src(x.test)]
+    ok = len(fast) == 1 and _conj(fast[0].test) == {_cf("self.stack[0].key == key", True), _cf("self.stack[0].priority == priority", True)}
+    chk.ob("FADE-2", "get_color_below takes the top-of-stack fast path only for the entry itself (same key and same priority)", ok,
+           gb.where(fast[0] if fast else None), detail="fast path when %s" % (src(fast[0].test) if fast else "?"), construct=gb.ident,
+           text="colour-below fast path")
+    scans = [x for lp in ast.walk(gb.node) if isinstance(lp, ast.For) for x in lp.body if isinstance(x, ast.If)]
+    ok = len(scans) == 1 and _conj(scans[0].test) == {_cf("entry.priority <= priority", True), _cf("entry.key <= key", True)}
+    chk.ob("FADE-2", "otherwise the sub-stack starts at the first entry with priority <= and key <= the given ones (the entry itself included)", ok,
+           gb.where(scans[0] if scans else None), detail="starts at %s" % (src(scans[0].test) if scans else "?"), construct=gb.ident,
+           text="colour-below scan")
     g = repo.func(LT, "Light._add_to_stack")
     chk.analysed(g)
     cfg = g.cfg()
@@ -1080,6 +1100,9 @@ def battery():
         M("fade blended backwards", LT, "        return RGBColor.blend(color_settings.start_color, dest_color, ratio), max_fade_ms, False", "        return RGBColor.blend(dest_color, color_settings.start_color, ratio), max_fade_ms, False", "INTERP-1"),
         M("finished fade shows its start colour", LT, "            return dest_color, int((color_settings.dest_time - current_time) * 1000), True", "            return color_settings.start_color, int((color_settings.dest_time - current_time) * 1000), True", "INTERP-1"),
         M("fade start colour read after the old entry is gone", LT, "        if fade_ms:\n            dest_time = start_time + (fade_ms / 1000)\n            color_below = self.get_color_below(priority, key)\n        else:\n            dest_time = 0\n            color_below = None\n\n        if self.stack:\n            self._remove_from_stack_by_key(key)\n", "        if self.stack:\n            self._remove_from_stack_by_key(key)\n\n        if fade_ms:\n            dest_time = start_time + (fade_ms / 1000)\n            color_below = self.get_color_below(priority, key)\n        else:\n            dest_time = 0\n            color_below = None\n", "FADE-2"),
+        M("colour-below fast path ignores the priority", LT, "        if self.stack[0].key == key and self.stack[0].priority == priority:", "        if self.stack[0].key == key:", "FADE-2"),
+        M("colour-below scan skips the entry's own key", LT, "            if entry.priority <= priority and entry.key <= key:", "            if entry.priority <= priority and entry.key < key:", "FADE-2"),
+        M("twin: colour-below comparisons mirrored", LT, "            if entry.priority <= priority and entry.key <= key:", "            if priority >= entry.priority and key >= entry.key:", None),
         M("fade start colour of another priority", LT, "            color_below = self.get_color_below(priority, key)", "            color_below = self.get_color_below(0, key)", "FADE-2"),
         M("twin: ratio on one line", LT, "            ratio = ((target_time - color_settings.start_time) /\n                     (color_settings.dest_time - color_settings.start_time))", "            ratio = (target_time - color_settings.start_time) / (color_settings.dest_time - color_settings.start_time)", None),
         M("start brightness of the white channel split differently from the target", LT, "                    if start_color.red == start_color.green == start_color.blue:\n                        start_brightness = start_color.red / 255.0", "                    if start_color.red == start_color.green:\n                        start_brightness = start_color.red / 255.0", "SIB-9"),
